@@ -1991,13 +1991,13 @@ class Measurement:
         self_upper = self.measurand + self.uncertainty
         other_upper = other.measurand + other.uncertainty
 
+        # two intervals overlap when each one starts before the other one ends, which
+        # (unlike testing whether the other's bounds fall within this one's) also covers
+        # the case where the other interval entirely contains this one
         try:
-            overlaps_lower = self_lower <= other_lower <= self_upper
-            overlaps_upper = self_lower <= other_upper <= self_upper
+            return self_lower <= other_upper and other_lower <= self_upper
         except TypeError:
             return False
-
-        return overlaps_lower or overlaps_upper
 
     def __lt__(self, other: object) -> bool:
         if isinstance(other, Quantity):
